@@ -84,7 +84,7 @@ def none(v):
 # ----------------------------------------------------------------------------------------------
 # concretisation of Monitor.tla's opaque ids
 XKINDS = ("list2", "tuple3", "nd2", "scalar", "list1")
-YKINDS = ("py", "np", "vec", "ndvec", "int", "tuplevec")
+YKINDS = ("py", "np", "vec", "ndvec", "int", "tuplevec", "nd0")   # nd0: a 0-d array (what Powell hands its monitor)
 # order-preserving cost concretisations, for scripts with a GetMin (Monitor.tla: cost ids -3..3 compared as integers)
 MONO_KINDS = ("mono", "mononp", "monoint")
 MONO = [-inf, -8.9e307, -5e-324, 0.0, 5e-324, 8.9e307, inf]
@@ -132,6 +132,7 @@ class Profile(object):
         k = self.ykind
         if k == "py": return a
         if k == "np": return np.float64(a)
+        if k == "nd0": return np.array(float(a))
         if k == "vec": return [a, b]
         if k == "ndvec": return np.array([float(a), float(b)])
         if k == "int": return yv + 10      # never the integer 0: an int has no signed zero, and 0*k/k = -0.0 for k=-1
